@@ -3,8 +3,12 @@
 //!   pzv-hal replay <file>
 #![allow(clippy::too_many_arguments, clippy::needless_range_loop, clippy::type_complexity)]
 
+pub mod c07;
 pub mod c08;
 pub mod c09;
+pub mod c10;
+pub mod c11;
+pub mod c12;
 pub mod env;
 pub mod mods;
 pub mod ops;
@@ -23,8 +27,12 @@ fn main() {
         let (prop, sub, case) = read_replay(&args[1]);
         let ctx = Ctx::from_args(&prop, &[]);
         let code = match prop.as_str() {
+            "C07" => c07::replay(&ctx, &sub, &case),
             "C08" => c08::replay(&ctx, &sub, &case),
             "C09" => c09::replay(&ctx, &sub, &case),
+            "C10" => c10::replay(&ctx, &sub, &case),
+            "C11" => c11::replay(&ctx, &sub, &case),
+            "C12" => c12::replay(&ctx, &sub, &case),
             _ => {
                 eprintln!("harness error: pzv-hal cannot replay property {prop}");
                 2
@@ -35,6 +43,14 @@ fn main() {
     let prop = args[0].clone();
     let ctx = Ctx::from_args(&prop, &args[1..]);
     let code = match prop.as_str() {
+        "C07" => {
+            c07::run(&ctx);
+            ctx.finish(
+                c07::RULE,
+                &["exactness is demanded only inside the conservative magnitude domain derived in DESIGN C07; behaviour between that domain and the library's practical limit is not judged", "transform-domain inputs are produced with the library's own forward transform and outputs are read back with its inverse transform (both are themselves ops under test here)"],
+                &[("extreme_aligned", 100), ("large_n", 20), ("wide_magnitude", 100)],
+            )
+        }
         "C08" => {
             c08::run(&ctx);
             ctx.finish(
@@ -50,6 +66,18 @@ fn main() {
                 &["checked profile: un-normalised digits limited to 61 bits so that a single add/sub cannot overflow (the reference kernels use +/-); the full-i64 wrapping domain is exercised by C10 in the release profile", "FFT64 modules cannot be created for N=1, so N=1 runs on the NTT120 backends only"],
                 &[("nontrivial", 100)],
             )
+        }
+        "C10" => {
+            c10::run(&ctx);
+            ctx.finish(c10::RULE, &["FFT64 transform-domain cases stay inside the C07 exactness domain: outside it the two FFT64 backends legitimately differ (FMA vs separate rounding)"], &[("n_below_simd_width", 100), ("four_backends", 100)])
+        }
+        "C11" => {
+            c11::run(&ctx);
+            ctx.finish(c11::RULE, &["transform-domain outputs are compared as raw bytes on the same backend"], &[("multi_column", 100), ("size_below_capacity", 100), ("column_moved", 100)])
+        }
+        "C12" => {
+            c12::run(&ctx);
+            ctx.finish(c12::RULE, &["this binary covers the HAL layer; the core / CKKS / binary-FHE (operation, tmp_bytes) pairs are covered by the scheme-level parts of C12"], &[("query_not_multiple_of_64", 50)])
         }
         _ => {
             eprintln!("harness error: unknown property {prop}");
